@@ -17,6 +17,14 @@ cd "$ROOT"
 PCFG_REPO=$SC PCFG_OUT=$OUT ./check $PROP --tier quick 2>&1 | grep -v '^WARNING' | cut -c1-600 > "$OUT.log" || true
 ( grep -E '^(VIOLATION|KNOWN-FINDING)' "$OUT.log" | head -3
   grep -E 'no longer checks: (theorems|constant|grep|build)' "$OUT.log" | head -3
+  /venv/bin/python - "$OUT" <<'PY'
+import glob, json, sys
+for f in sorted(glob.glob(sys.argv[1] + "/replays/*.json"))[:1]:
+    d = json.load(open(f))
+    for b in (d.get("broken") or []):
+        if "theorems of Props" in b or "constants" in b or "build" in b:
+            print("broken (from %s): %s" % (f.split("/")[-1], b[:400]))
+PY
   grep -c 'no longer checks: correspondence' "$OUT.log" | sed 's/^/correspondence shards that no longer check: /'
   tail -1 "$OUT.log" ) > "$HERE/${PROP}_$NAME.result"
 echo "$NAME: $(tail -1 "$OUT.log")"
